@@ -188,9 +188,11 @@ def rule_a(ctx):
 TERMINAL = ('complete', 'error', 'next!')
 
 
-def init_bools(ctx, m, h):
-    """Constant bool attributes established by the constructor of handler class h."""
-    key = ('init_bools', h)
+def init_bools(ctx, m, h, constructed=False):
+    """The state of handler class h when its stream is open: the constant bool attributes its constructor establishes
+    and, for a requester whose subscribe() writes the request frame, what that path of subscribe() changes (a requester
+    may keep a 'request frame written' mark).  constructed=True: the constructor's state alone."""
+    key = ('init_bools', h, constructed)
     if key in ctx.cache:
         return ctx.cache[key]
     init = h.lookup('__init__')
@@ -200,6 +202,16 @@ def init_bools(ctx, m, h):
         ret = [p for p in ps if p.outcome == 'return']
         if ret:
             out = {k: v for k, v in m.post_state(ret[0]).items() if isinstance(v, bool)}
+    if not constructed and m.role(h)[1] == 'requester':
+        sub = [e for e in m.entries(h) if e.kind == 'method' and e.func.node.name == 'subscribe']
+        if sub:
+            opened = [p for p in m.run(sub[0], dict(out)) if p.outcome == 'return' and m.emitted(p)]
+            if opened:
+                post = m.post_state(opened[0])
+                if all({k: v for k, v in m.post_state(q).items() if isinstance(v, bool)} ==
+                       {k: v for k, v in post.items() if isinstance(v, bool)} for q in opened):
+                    out = dict(out)
+                    out.update({k: v for k, v in post.items() if isinstance(v, bool)})
     ctx.cache[key] = out
     return out
 
